@@ -56,12 +56,14 @@ deriving DecidableEq, Repr, Inhabited
 
 inductive ErrClass
   | collision | notExist | globNoMatch | globFailed | relErr | invalidType | walkErr
+  /-- an error of the implementation that the harness cannot name (reworded message): only used for results handed to the spec -/
+  | other
 deriving DecidableEq, Repr
 
 def ErrClass.name : ErrClass → String
   | .collision => "collision" | .notExist => "not-exist" | .globNoMatch => "glob-no-match"
   | .globFailed => "glob-failed" | .relErr => "rel-err" | .invalidType => "invalid-type"
-  | .walkErr => "walk-err"
+  | .walkErr => "walk-err" | .other => "other"
 
 /-- os.Stat result (follows symlinks) -/
 structure Stat where
